@@ -1,8 +1,13 @@
 import BfeVerif.Common.Proto
+import BfeVerif.C17.Driver
 import BfeVerif.C18.Model
 /-!
-  C18 driver.  op = `m;prim;a0;a1;fold;pips;host;path;method;query;headers;cookies;tags;cip;vip`
-  (hex fields, `-` = empty; lists comma separated `k:v`; tags `k:v/v/…`; cip/vip `n` = nil).
+  C18 driver.  op = `;`-separated fields
+    0 m  1 prim  2 a0  3 a1  4 fold  5 hints(C17 format: i/t/s/r)  6 host  7 path  8 method  9 query  10 headers
+    11 cookies  12 tags  13 cip  14 vip  15 uri  16 proto  17 secure  18 sesproto  19 tls(n | sni:auth:ca)
+    20 sip  21 hosttag  22 trusted  23 resp(n | code|k:v,…)  24 ctx(n | k:v,… v=* non-string)  25 cipstr
+    26 re(- | x | v=0/1,…  MatchString of the regexp argument on candidate values)  27 hb(v=bucket,…)
+  (hex fields, `-` = empty; lists comma separated `k:v`; tags `k:v/v/…`; ips `n` = nil).
   result = `T` | `F` | `builderr`.
 -/
 namespace BfeVerif.C18
@@ -28,43 +33,93 @@ def tagList (s : String) : Option (List (List UInt8 × List (List UInt8))) :=
       | _, _ => none
     | _ => none
 
+def ctxList (s : String) : Option (Option (List (List UInt8 × Option (List UInt8)))) :=
+  if s == "n" then some none
+  else if s == "-" then some (some [])
+  else ((s.splitOn ",").mapM fun (kv : String) =>
+    match kv.splitOn ":" with
+    | [k, v] => match hexB k with
+      | some a => if v == "*" then some (a, (none : Option (List UInt8))) else (hexB v).map fun b => (a, some b)
+      | none => none
+    | _ => none).map some
+
 def ipOpt (s : String) : Option (Option (List UInt8)) :=
   if s == "n" then some none else (hexB s).map some
+
+def tlsOpt (s : String) : Option (Option Tls) :=
+  if s == "n" then some none
+  else match s.splitOn ":" with
+    | [a, b, c] => match hexB a, hexB c with
+      | some sni, some ca => some (some { sni := sni, clientAuth := b == "1", ca := ca })
+      | _, _ => none
+    | _ => none
+
+def respOpt (s : String) : Option (Option Resp) :=
+  if s == "n" then some none
+  else match s.splitOn "|" with
+    | [c, h] => match hexB c, pairs h with
+      | some code, some hs => some (some { code := code, headers := hs })
+      | _, _ => none
+    | _ => none
+
+def kvTable (s : String) : List (List UInt8 × String) :=
+  if s == "-" || s == "x" then []
+  else (s.splitOn ",").filterMap fun kv =>
+    match kv.splitOn "=" with
+    | [k, v] => (hexB k).map fun a => (a, v)
+    | _ => none
 
 def render : Option Bool → String
   | some true => "T" | some false => "F" | none => "builderr"
 
+def endsWithAny (s : String) (l : List String) : Bool := l.any (fun e => s.endsWith e)
+
 def run (op impl : String) : Ans :=
-  match op.splitOn ";" with
-  | ["m", prim, a0, a1, fold, pips, host, path, method, query, headers, cookies, tags, cip, vip] =>
-    match hexB a0, hexB a1, hexB host, hexB path, hexB method, pairs query, pairs headers, pairs cookies,
-          tagList tags, ipOpt cip, ipOpt vip with
+  let fs := op.splitOn ";"
+  let f (i : Nat) : String := fs.getD i ""
+  if fs.length != 28 || f 0 != "m" then { model := "bad-op", verdict := "skip" }
+  else
+    match hexB (f 2), hexB (f 3), hexB (f 6), hexB (f 7), hexB (f 8), pairs (f 9), pairs (f 10), pairs (f 11),
+          tagList (f 12), ipOpt (f 13), ipOpt (f 14) with
     | some a0, some a1, some host, some path, some method, some query, some headers, some cookies,
       some tags, some cip, some vip =>
-      let pl : List (Option (List UInt8)) :=
-        if pips == "-" then [] else (pips.splitOn ",").map (fun s => if s == "x" then none else hexB s)
-      let r : Req := { host, path, method, query, headers, cookies, tags, cip, vip }
-      let f := fold == "1"
-      let m := matchPrim prim a0 a1 f pl r
-      let s := specPrim prim a0 a1 f pl r
-      let isVal := (prim.startsWith "req_header_value" || prim.startsWith "req_query_value")
-      let absent := if prim.startsWith "req_header_value" then (assoc a0 headers).isNone
-                    else if prim.startsWith "req_query_value" then (assoc a0 query).isNone else false
-      let cls :=
-        if isVal && absent then "missing-attr-empty-pattern"
-        else if (prim == "req_port_in" || prim.startsWith "req_host") && host.head? == some 91 then "ipv6-host-literal"
-        else if prim == "req_port_in" && host.head? == some 58 then "empty-host-port"
-        else if prim == "req_header_key_in" then "header-key-empty-value"
-        else "other"
-      let verdict :=
-        if impl == render s then "ok"
-        else if impl == "T" || impl == "F" || impl == "builderr" then "FAIL:" ++ cls
-        else "FAIL:crash"
-      let tags :=
-        [prim, render m] ++ (if m.isSome then ["nt"] else []) ++ (if f then ["fold"] else []) ++
-        (if absent then ["absent"] else [])
-      { model := render m, verdict := verdict, tags := tags }
+      match hexB (f 15), hexB (f 16), hexB (f 18), tlsOpt (f 19), ipOpt (f 20), hexB (f 21), respOpt (f 23),
+            ctxList (f 24), hexB (f 25) with
+      | some uri, some proto, some sesProto, some tls, some sip, some hostTag, some resp, some ctx, some cipStr =>
+        let prim := f 1
+        let hs := if f 5 == "-" then [] else ((f 5).splitOn ",").filterMap BfeVerif.C17.parseHint
+        let reT := kvTable (f 26)
+        let hbT := kvTable (f 27)
+        let o : Orc := {
+          x := { BfeVerif.C17.extOf hs with regexOk := fun _ => f 26 != "x" }
+          reMatch := fun _ v => (reT.find? (fun e => e.1 == v)).map (·.2) == some "1"
+          bucket := fun v => ((hbT.find? (fun e => e.1 == v)).bind (fun e => e.2.toNat?)).getD 0 }
+        let r : Req := { host, path, method, query, headers, cookies, tags, cip, vip, uri, proto,
+                         secure := f 17 == "1", sesProto, tls, sip, hostTag, trusted := f 22 == "1", resp, ctx, cipStr }
+        let fold := f 4 == "1"
+        let m := matchPrim o prim a0 a1 fold r
+        let s := specPrim o prim a0 a1 fold r
+        let absent :=
+          if prim.startsWith "req_header_value" then (assoc a0 headers).isNone
+          else if prim.startsWith "req_query_value" then (assoc a0 query).isNone
+          else if prim == "req_ua_regmatch" then (assoc uaKey headers).isNone
+          else if prim == "res_header_value_in" then (match resp with | some p => (assoc a0 p.headers).isNone | none => false)
+          else false
+        let cls :=
+          if absent then (if prim.endsWith "hash_in" then "missing-attr-hash" else "missing-attr-empty-pattern")
+          else if (prim == "req_port_in" || prim.startsWith "req_host") && host.head? == some 91 then "ipv6-host-literal"
+          else if prim == "req_port_in" && host.head? == some 58 then "empty-host-port"
+          else if prim == "req_header_key_in" || prim == "res_header_key_in" then "header-key-empty-value"
+          else "other"
+        let verdict :=
+          if impl == render s then "ok"
+          else if impl == "T" || impl == "F" || impl == "builderr" then "FAIL:" ++ cls
+          else "FAIL:crash"
+        let tags :=
+          [prim, render m] ++ (if m.isSome then ["nt"] else []) ++ (if fold then ["fold"] else []) ++
+          (if absent then ["absent"] else [])
+        { model := render m, verdict := verdict, tags := tags }
+      | _, _, _, _, _, _, _, _, _ => { model := "bad-op", verdict := "skip" }
     | _, _, _, _, _, _, _, _, _, _, _ => { model := "bad-op", verdict := "skip" }
-  | _ => { model := "bad-op", verdict := "skip" }
 
 end BfeVerif.C18
